@@ -201,6 +201,7 @@ impl Monitor for C03 {
             ("ethertype", tier.pick(65_536, 65_536 * 4)),
             ("iplevel", tier.pick(1500000, 150000000)),
             ("corpus", tier.pick(400_000, 8_000_000)),
+            ("big", tier.pick(40_000, 2_000_000)),
         ]
     }
 
@@ -208,6 +209,17 @@ impl Monitor for C03 {
         match engine {
             "clean" => {
                 let case = gen::gen_case(rng, &GenOpts::clean());
+                self.whole(rep, &case);
+            }
+            "big" => {
+                // true sizes around 2^16: where 16 bit arithmetic on lengths would wrap
+                gen::set_big(true);
+                let o = if rng.bool() { GenOpts::clean() } else { GenOpts::hostile() };
+                let case = gen::gen_case(rng, &o);
+                gen::set_big(false);
+                if case.bytes.len() > 60_000 {
+                    rep.count("big_cases");
+                }
                 self.whole(rep, &case);
             }
             "hostile" => {
